@@ -1,6 +1,7 @@
 package props
 
 import (
+	"strings"
 	"fmt"
 	"regexp"
 	"runtime"
@@ -26,6 +27,8 @@ type C20Case struct {
 	RuleIdx int          `json:"rule_idx"`
 	Lay     []byte       `json:"lay,omitempty"`
 	Lead    string       `json:"lead,omitempty"` // text before the first rule (blank lines, comments)
+	// LeadLines > 0: that many empty lines precede Lead (texts of more than 65536 lines)
+	LeadLines int `json:"lead_lines,omitempty"`
 	// Recompile: 1 = the same rules were first installed by a full build from a text with
 	// another layout and line offset, the text under test then arrives as an incremental
 	// build; 2 = the same through a pool (construction, then incremental update). The
@@ -88,6 +91,9 @@ func init() {
 				c.Lay = nil
 			}
 			c.Lead = []string{"", "", "\n", "\n\n\n", "  \n\t\n", "// header comment\n", "\r\n\r\n", " "}[uni(t, "lead", 0, 7)]
+			if pct(t, "long_text", 1) {
+				c.LeadLines = []int{65530, 65534, 65535, 65536, 70000, 131080}[uni(t, "long_text_lines", 0, 5)]
+			}
 			if pct(t, "recompile", 30) {
 				c.Recompile = uni(t, "recompile_kind", 1, 3)
 			} else if pct(t, "twin", 15) {
@@ -108,7 +114,12 @@ func init() {
 					rules = append(rules, fillerRule(k))
 				}
 			}
-			text, pr := dsl.PrintRulesLead(rules, c.Lay, c.Lead)
+			lead := c.Lead
+			if c.LeadLines > 0 {
+				lead = strings.Repeat("\n", c.LeadLines) + lead
+				x.Class("text-of-more-than-65000-lines")
+			}
+			text, pr := dsl.PrintRulesLead(rules, c.Lay, lead)
 			if tooCostly(x, text) {
 				return
 			}
